@@ -193,6 +193,32 @@ def run(repo='/repo', tier='quick'):
     okc = len(w) == 1 and w[0][2].get('op') == '+=' and P.K(w[0][2]['r']) in ('d.len', 'len') and bool(disp) and all(w[0][0] in dom[b] for b in disp)
     res.check(okc, 'C06.c', f.name + ':central-accounting', 'response_message_len += len once, before the coding dispatch', 'the response side no longer accounts every handed-over byte centrally before dispatch', f.loc)
 
+    # ---------------- C06.e the other direction may not cut a body short
+    res.rule('C06.e', 'the response side redirects the request state machine only when no request body byte has been taken yet (in_body_data_left == in_content_length) or when no request exists at all (unmatched response)')
+    in_side = set(P.state_functions(db, 'in')) | {'htp_connp_req_data', 'htp_connp_create'}
+    nred = 0
+    for n, f in sorted(db.fn.items()):
+        if n in in_side or n.startswith('htp_tx_state_request') or n == 'htp_connp_tx_create':
+            continue
+        for b, i, x in P.field_writes(f, 'in_state'):
+            if strip(x['l']).get('rec') != 'htp_connp_t':
+                continue
+            nred += 1
+            npth, bad = 0, None
+            for atoms, events, end, seq in P.enum_paths_seq(f, (f.entry, -1), stop=lambda bb, ii, st: (bb, ii) == (b, i), max_paths=20000, must_reach=b):
+                if end[0] != 'stop':
+                    continue
+                npth += 1
+                facts = [a for a, bb in atoms]
+                untouched = ('connp->in_body_data_left', '==', 'connp->in_content_length') in facts and ('connp->in_content_length', '>', '0') in facts
+                norequest = ('connp->out_tx', '==', '0') in facts
+                if not (untouched or norequest):
+                    bad = facts
+            key = '%s:in_state=%s' % (n, P.K(x['r']))
+            res.check(bad is None and npth > 0, 'C06.e', key, 'all %d paths to this write establish that the request body has not been started (or that there is no request)' % npth,
+                      '%s redirects the request state machine (in_state = %s) on a path that does not establish in_body_data_left == in_content_length: a body that is partly consumed would be cut short and its tail parsed as a new request' % (n, P.K(x['r'])), x['loc'])
+    res.floor('C06.e', 'cross-direction writes of in_state', nred, 1)
+
     # ---------------- C06.d
     for fname, hook, proc, hasbody in (
             ('htp_tx_state_request_complete_partial', 'hook_request_complete', 'htp_tx_req_process_body_data_ex', ('htp_tx_req_has_body(tx)', '!=', '0')),
